@@ -198,6 +198,9 @@ type SpecEnv struct {
 	extra  func(name string, args []TV) (TV, bool)
 	lin    *linPoint
 	assume bool
+	// assumeMode: the expression is being assumed (loop invariant after havoc), so ghost
+	// bindings it states may be materialised
+	assumeMode bool
 }
 
 var impliesRe = regexp.MustCompile(`==>`)
